@@ -163,7 +163,7 @@ func genOps(b bias, guard bool) []mach.Op {
 			forceMatchdeep = false
 			ops = append(ops, mach.Op{Name: "matchdeep"}) // (slow: more than a second each, so a fixed share of the cases: see main)
 		} else {
-			ops = append(ops, mach.Op{Name: pickS([]string{"retgetter", "retcyclic", "throwobj", "retcyclicobj", "retnan", "retgetterbad"})})
+			ops = append(ops, mach.Op{Name: pickS([]string{"retgetter", "retcyclic", "throwobj", "retcyclicobj", "retnan", "retgetterbad", "retdeepshared"})})
 		}
 	case r < b.fail*0.8+b.exotic+b.loop:
 		ops = append(ops, mach.Op{Name: "loop"})
